@@ -1159,7 +1159,8 @@ func R9PersistAfterMark(c *Ctx) {
 		var updates []*ssa.BasicBlock
 		updIdx := map[*ssa.BasicBlock]int{}
 		EachCall(fn, func(call ssa.CallInstruction) {
-			if strings.HasSuffix(CalleeName(call), ".AgentUpdate") {
+			// AgentUpdate writes the row; Died does so after flipping the flag itself
+			if n := CalleeName(call); strings.HasSuffix(n, ".AgentUpdate") || strings.HasSuffix(n, "Teamserver).Died") {
 				in := call.(ssa.Instruction)
 				updates = append(updates, in.Block())
 				if i := InstrBlockIndex(in); i > updIdx[in.Block()] {
@@ -1167,7 +1168,10 @@ func R9PersistAfterMark(c *Ctx) {
 				}
 			}
 		})
-		if len(updates) == 0 {
+		// event handlers and the link bookkeeping change liveness on their own: every such change must be persisted,
+		// whether or not the function persists anything today
+		standalone := fn.Name() == "DispatchEvent" || fn.Name() == "LinkRemove" || fn.Name() == "Died"
+		if len(updates) == 0 && !standalone {
 			continue
 		}
 		isUpd := map[*ssa.BasicBlock]bool{}
